@@ -75,6 +75,11 @@ class Ctx:
             self.funcs['%s.%s' % (mod, qualname)] = {'file': 'bronzebeard/%s.py' % mod, 'line': None}
 
     def add(self, o):
+        # obligations tagged with the properties they decide are kept only by those properties' checks;
+        # untagged ones (callee contracts in the dependency cone) are kept by every check that builds them
+        props = o.meta.get('props')
+        if props and self.prop not in props:
+            return o
         self.obligations.append(o)
         return o
 
@@ -150,7 +155,10 @@ def _run_task(job):
     except Exception as e:
         sub.errors.append('task %s%r crashed: %r\n%s' % (target, args, e, traceback.format_exc()[-1200:]))
         sub.obligations = [o for o in sub.obligations if o.hyps is None]
-    return {'obligations': sub.obligations, 'errors': sub.errors, 'undecided': sub.undecided, 'funcs': sub.funcs,
+    for part in sub.bounded['parts'].values():
+        part['distinct'] = set(part['distinct'])
+    return {'violations': sub.violations, 'bounded': sub.bounded, 'raise_paths': [dict(r, pc=None) for r in getattr(sub, 'raise_paths', [])],
+            'obligations': sub.obligations, 'errors': sub.errors, 'undecided': sub.undecided, 'funcs': sub.funcs,
             'inlined': sub.inlined, 'assumptions': sub.assumptions, 'trusted': sub.trusted, 'crosscheck': sub.crosscheck,
             'notes': sub.notes, 'samples': sub.samples, 'dropped': sub.dropped}
 
@@ -178,6 +186,23 @@ def run_tasks(ctx, timeout_ms):
         ctx.crosscheck['disagreements'] += r['crosscheck']['disagreements']
         ctx.notes.extend(r['notes'])
         ctx.samples.extend(r['samples'][:2])
+        for v in r['violations']:
+            if not any(x.obligation == v.obligation and x.key == v.key for x in ctx.violations):
+                ctx.violations.append(v)
+        b = r['bounded']
+        ctx.bounded['evaluations'] += b['evaluations']
+        ctx.bounded['distinct'] |= b['distinct']
+        for t in b['rules']:
+            ctx.b_rule(t)
+        ctx.bounded['samples'].extend(b['samples'][:2])
+        for k, part in b['parts'].items():
+            mine = ctx.bounded['parts'].setdefault(k, {'evaluations': 0, 'distinct': set()})
+            mine['evaluations'] += part.get('evaluations', 0)
+            mine['distinct'] |= part.get('distinct', set())
+            for kk, vv in part.items():
+                if kk not in ('evaluations', 'distinct'):
+                    mine[kk] = mine.get(kk, 0) + vv
+        ctx.raise_paths = getattr(ctx, 'raise_paths', []) + r['raise_paths']
     ctx.tasks = []
 
 
@@ -260,6 +285,8 @@ def finish(ctx, level, n_disch, checker_cmd, explanation):
             ctx.notes.append('known finding not reproduced in this run/tier: %s %s' % (k['obligation'], k['key']))
 
     real_obls = [o for o in ctx.obligations]
+    for part in ctx.bounded['parts'].values():
+        part.setdefault('distinct', set())
     cov = {
         'obligations': len(real_obls),
         'discharged': n_disch,
@@ -284,7 +311,7 @@ def finish(ctx, level, n_disch, checker_cmd, explanation):
         'distinct_nontrivial': len(ctx.bounded['distinct']),
         'rule': ' | '.join(ctx.bounded['rules']) or 'no bounded stand-in for this property',
         'bounded': {'labelled': 'bounded - never counted as proved',
-                    'parts': {k: {'evaluations': p['evaluations'], 'distinct_nontrivial': len(p['distinct'])}
+                    'parts': {k: dict({kk: vv for kk, vv in p.items() if kk != 'distinct'}, distinct_nontrivial=len(p['distinct']))
                               for k, p in ctx.bounded['parts'].items()}},
         'samples': (ctx.samples[:8] + ctx.bounded['samples'][:8]) or ['(none)'],
         'known_findings': known_lines,
@@ -370,6 +397,7 @@ def main(argv=None):
                 ctx.errors.append('solver disagreement on %s: %s says %s, z3 said %s' % b)
         if not args.no_bounded and hasattr(mod, 'bounded'):
             mod.bounded(ctx)
+            run_tasks(ctx, timeout)
         if args.tier == 'thorough' and hasattr(mod, 'thorough_extra'):
             mod.thorough_extra(ctx)
         return finish(ctx, mod.LEVEL, n, './check %s --tier %s' % (args.prop, args.tier), mod.explanation(ctx))
